@@ -1139,7 +1139,7 @@ def run(ctx):
     if ctx.replay:
         cases = [json.load(open(ctx.replay))['case']]
     else:
-        cases += [gen_case(rng) for _ in range(ctx.scale(75, 1300))]
+        cases += [gen_case(rng) for _ in range(ctx.scale(65, 1300))]
     terms, meta = [], []
 
     def add(kind, term, *info):
